@@ -40,7 +40,8 @@ CLAIM = dict(
     "keeps the stored relative times also for dated images), time_interval_keeps_stored_times. The relative time of a slab is what the parent "
     "stored (roots with dates AND independent stored times are covered), not a function of its date. Tie: differential correspondence on random programs (metadata + slab index lists, AND the whole pixel array entry by entry against np.arange-coded payloads) "
     "(exact, dyadic geometries) + oracle on the implementation tracing every voxel back to its root voxel.",
-    note="slices with a step other than 1 are outside the quantifier and not modelled (the code strides the data but derives dimensions from start/stop); Image.append compares dimensions/origin with "
+    note="dates are modelled as integer microseconds and relative times as the whole signed difference in seconds (secondsBetween); generators cover day spans, fractional (dyadic) seconds, "
+    "reference dates after the dates, and integer-typed dimensions / origins; slices with a step other than 1 are outside the quantifier and not modelled (the code strides the data but derives dimensions from start/stop); Image.append compares dimensions/origin with "
     "np.allclose and keeps the receiver's geometry (modelled with numpy's tolerance; appending an image whose geometry differs within 1e-5 relative is outside the quantifier and only counted); "
     "extents >= 1e5 voxels (where np.allclose cannot tell neighbouring integers apart) are not modelled; the model has value semantics: that stack() leaves the images passed in untouched and that extraction results do not alias their parent are checked by the oracle on the implementation; geometry on general (non-dyadic) floats is only covered by the oracle with a stated tolerance; Image.slice / reduce_axis are not part of C02; "
     "tuple-of-slices reaching beyond the image are clipped since the fix of Image.subregion (before: outside the property's quantifier).",
@@ -971,6 +972,10 @@ def replay(data):
             wsel = call(expected_selection, tok, parent)
             if not isinstance(wsel, Raised) and (wsel.shape != im.img.shape or not np.array_equal(wsel, im.img)):
                 fails.append((f"C02:wrong-block-selected:{tok.split()[0]}", f"step `{tok}` returned data of shape {im.img.shape}, the denoted block has shape {wsel.shape}"))
+        if r["tkind"] == "dates":
+            want_t = [float(Fraction(s_) - Fraction(r["stamps"][0])) for s_ in r["stamps"]]
+            if as_list(root.time, True) != want_t:
+                fails.append(("C02:image-from-dates:relative-times", f"image constructed with dates at {r['stamps']} s: relative times {root.time}, required {want_t}"))
         if not isinstance(im, Raised):
             dyadic = r.get("dyadic", True)
             fails = fails + trace_check(d, root, r, im, dyadic) + physical_box_check(d, random.Random(0), im, dyadic, case.get("box"))
